@@ -99,6 +99,70 @@ def r1(ctx):
               "length equal and prefix equal", key="C02.R1:prefix_is_same")
 
 
+def r1_words(ctx):
+    """address equality looks at the whole address: one differing 32-bit word, the version tag, makes two prefixes different"""
+    pdb = ctx.pdb
+    f6 = pdb.fn("lrtr_ipv6_addr_equal")
+    ctx.touch(f6)
+
+    def word_of(e, arg):
+        if e[0] == "load" and e[1][0] == "idx" and e[1][1] == ("fld", ("arg", arg), "lrtr_ipv6_addr.addr") and e[1][2][0] == "c":
+            return e[1][2][1]
+        return None
+    for differ in (None, 0, 1, 2, 3):
+        def oracle(inst, pred, a, b, E, differ=differ):
+            for x, y in ((a, b), (b, a)):
+                wa, wb = word_of(x, 0), word_of(y, 1)
+                if wa is not None and wb is not None and pred in ("eq", "ne"):
+                    if wa != wb:
+                        return None            # comparing different words of the two addresses: not an equality test of a word
+                    same = wa != differ
+                    return same if pred == "eq" else not same
+            return None
+        outs, _f = es.count_effects(f6, pdb, lambda i, E, st: None, None, oracle=oracle)
+        rets = {flow.av_single(o["ret"]) for o in outs}
+        want = {1} if differ is None else {0}
+        ctx.check(rets == want, "C02.R1", "ipv6_addr_equal[%s]" % ("all four words equal" if differ is None else "word %d differs" % differ),
+                  "%s:%d" % (f6.relfile, f6.line), "returns %s (expected %s)" % (sorted(rets, key=str), sorted(want)), key="C02.R1:ipv6_equal:%s" % differ)
+    f4 = pdb.fn("lrtr_ipv4_addr_equal")
+    ctx.touch(f4)
+    for same in (True, False):
+        def oracle4(inst, pred, a, b, E, same=same):
+            fa = {vf.last_field(x[1]) if x[0] == "load" else None for x in (a, b)}
+            ra = {vf.root_of(x[1]) if x[0] == "load" else None for x in (a, b)}
+            if fa == {"lrtr_ipv4_addr.addr"} and ra == {("arg", 0), ("arg", 1)} and pred in ("eq", "ne"):
+                return same if pred == "eq" else not same
+            return None
+        outs, _f = es.count_effects(f4, pdb, lambda i, E, st: None, None, oracle=oracle4)
+        rets = {flow.av_single(o["ret"]) for o in outs}
+        ctx.check(rets == ({1} if same else {0}), "C02.R1", "ipv4_addr_equal[%s]" % ("equal" if same else "different"), "%s:%d" % (f4.relfile, f4.line),
+                  "returns %s" % sorted(rets, key=str), key="C02.R1:ipv4_equal:%s" % same)
+    fe = pdb.fn("lrtr_ip_addr_equal")
+    ctx.touch(fe)
+    v6 = pdb.enum_value("LRTR_IPV6")
+    v4 = pdb.enum_value("LRTR_IPV4")
+    for va, vb in ((v4, v4), (v6, v6), (v4, v6), (v6, v4)):
+        for inner in (1, 0):
+            def values(pe, va=va, vb=vb):
+                if vf.last_field(pe) == "lrtr_ip_addr.ver":
+                    return va if vf.root_of(pe) == ("arg", 0) else vb
+                return None
+
+            def classify(inst, E, st, inner=inner):
+                if inst.op == "call" and inst.callee in ("lrtr_ipv6_addr_equal", "lrtr_ipv4_addr_equal"):
+                    ok = vf.root_of(vf.expr(fe, inst.args[0])) == ("arg", 0) and vf.root_of(vf.expr(fe, inst.args[1])) == ("arg", 1)
+                    return [(["ask:" + ("v6" if "ipv6" in inst.callee else "v4") + ("" if ok else "?")], {inst.ref: flow.av_in(inner)})]
+                return None
+            outs, _f = es.count_effects(fe, pdb, classify, None, values=values)
+            if va != vb:
+                good = bool(outs) and all(flow.av_single(o["ret"]) == 0 for o in outs)
+            else:
+                want = {"ask:v6" if va == v6 else "ask:v4": 1}
+                good = bool(outs) and all(o["counts"] == want and flow.av_single(o["ret"]) == inner for o in outs)
+            ctx.check(good, "C02.R1", "ip_addr_equal[ver %d vs %d, family comparison says %d]" % (va, vb, inner), "%s:%d" % (fe.relfile, fe.line),
+                      "outcomes %s" % sorted({(tuple(sorted(o["counts"])), str(flow.av_single(o["ret"]))) for o in outs}), key="C02.R1:ip_equal:%d:%d:%d" % (va, vb, inner))
+
+
 def r2(ctx, retsets):
     pdb = ctx.pdb
     ctx.rule("C02.R2", "pfx_table_add: DUPLICATE_RECORD => nothing changed; SUCCESS => exactly one of {element appended, new node "
@@ -667,6 +731,7 @@ def r5(ctx):
 def check(ctx):
     retsets = flow.return_sets(ctx.pdb)
     r1(ctx)
+    r1_words(ctx)
     r2(ctx, retsets)
     r2_shift(ctx)
     r3(ctx, retsets)
